@@ -7,6 +7,9 @@ import RsslVerif.Gen.ArithSites
 import RsslVerif.Model.DefinedLoc
 import RsslVerif.Lemmas.DefinedLoc
 import RsslVerif.Lemmas.ArithClasses
+import RsslVerif.Gen.PipelineProps
+import RsslVerif.Model.PipelineProps
+import RsslVerif.Lemmas.PipelineProps
 /-!
 # C08 — compilation is total
 
@@ -500,6 +503,127 @@ theorem scan_output_has_no_concat (paste : Tok → Tok → Option Tok)
     (by intro i t hi; simp [SearchPos.start] at hi) h
 
 end DefinedLocation
+
+/-! ## property blocks: the duplicate check that keeps four asserts of `parse_pipeline` unreachable -/
+
+section PipelineProps
+open RsslVerif.Model.PipelineProps RsslVerif.Lemmas.PipelineProps RsslVerif.Gen.PipelineProps
+
+/-- Tie to the source (`typer/src/typer/pipelines.rs`, re-extracted on every run): both duplicate checks
+    (`parse_pipeline`, `parse_static_sampler`) are the all-pairs loop and compare the property **names as text**
+    (`.as_str()`), not the `Located<String>` values; the check precedes the stage loop and the state loop; the state
+    loop walks exactly the properties the stage loop left, matching the name as text; each of the four flags / slots
+    an `assert!` tests is written by the arm of its own name only; on a compute pipeline the gated arms return
+    before they write.  The tables of the arms are the ones the model and the generators use. -/
+theorem pipeline_duplicates_as_modelled :
+    pipelineShape = ⟨true, true, true, true, true, true, true, true, true, true⟩ ∧
+    pipelineDupCompare = .text ∧ samplerDupCompare = .text ∧
+    stageProps = ["VertexShader", "PixelShader", "ComputeShader", "TaskShader", "MeshShader"] ∧
+    stateArms = [
+      (["RenderTargetFormat0", "RenderTargetFormat1", "RenderTargetFormat2", "RenderTargetFormat3", "RenderTargetFormat4",
+        "RenderTargetFormat5", "RenderTargetFormat6", "RenderTargetFormat7"], true, true),
+      (["DepthTargetFormat"], true, true), (["DefaultBindGroup"], false, false), (["CullMode"], true, true),
+      (["WindingOrder"], true, true), (["BlendState"], false, false),
+      (["BlendState0", "BlendState1", "BlendState2", "BlendState3", "BlendState4", "BlendState5", "BlendState6", "BlendState7"], false, false)] ∧
+    blendProps = ["BlendEnabled", "SrcBlend", "DstBlend", "BlendOp", "SrcBlendAlpha", "DstBlendAlpha", "BlendOpAlpha", "WriteMask"] ∧
+    samplerProps = ["Filter", "AddressU", "AddressV", "AddressW", "CompareFunc", "MaxAnisotropy", "MinLOD", "MaxLOD", "BorderColor"] := by
+  decide
+
+/-- **A repeated property is always reported, and only a repeated one**: for every table of arms, every pipeline kind
+    and every property list (names and locations arbitrary, no bound on the length), the modelled `parse_pipeline` —
+    with the comparison the current source uses — answers `PipelinePropertyDuplicate` iff some name occurs twice. -/
+theorem pipeline_duplicate_reported_iff (arms : List (List String × Bool × Bool)) (stage : List String) (isCompute : Bool) (ps : List PProp) :
+    (∃ loc, runAs pipelineDupCompare arms stage isCompute ps = some (.dup loc)) ↔ ¬ (names ps).Nodup := by
+  have hc : pipelineDupCompare = .text := by decide
+  rw [hc]
+  have h := firstDup_text_none_iff ps []
+  simp only [names, List.map_nil, List.not_mem_nil, not_false_eq_true, implies_true, true_and] at h
+  simp only [runAs, runPipe, Option.some.injEq]
+  cases hf : firstDup textEq ps [] with
+  | none =>
+    have := h.1 hf
+    simp only [names, this, not_true_eq_false, iff_false, not_exists]
+    intro loc hh
+    exact stateLoop_no_dup arms isCompute _ [] loc hh
+  | some loc =>
+    constructor
+    · intro _ hn
+      rw [h.2 hn] at hf
+      cases hf
+    · intro _
+      exact ⟨loc, by simp⟩
+
+/-- **The four "not set before" asserts of `parse_pipeline` are unreachable**: for every table of arms, every pipeline
+    kind and every property list, the modelled function — duplicate check with the comparison the current source uses
+    (`Gen.PipelineProps.pipelineDupCompare`, re-extracted on every run), then the state loop — never ends in an assert.
+    The proof starts from `pipelineDupCompare = .text` (`decide`): with the `Located` comparison the statement is false
+    (`pipeline_located_compare_reaches_asserts`), so a source that compares locations falsifies this theorem itself. -/
+theorem pipeline_state_asserts_unreachable (arms : List (List String × Bool × Bool)) (stage : List String) (isCompute : Bool) (ps : List PProp) :
+    ∃ out, runAs pipelineDupCompare arms stage isCompute ps = some out ∧ ∀ n, out ≠ .panic n := by
+  have hc : pipelineDupCompare = .text := by decide
+  rw [hc]
+  refine ⟨runPipe textEq arms stage isCompute ps, rfl, fun n => ?_⟩
+  unfold runPipe
+  cases hf : firstDup textEq ps [] with
+  | some loc => simp
+  | none =>
+    have h := (firstDup_text_none_iff ps []).1 hf
+    exact stateLoop_no_panic arms isCompute _ [] (remaining_nodup stage ps h.2) (fun _ _ => by simp) n
+
+/-- **Negation witness**: with the `Located<String>` comparison (name *and* source location) the duplicate check
+    accepts every block a parser can produce — the locations of two properties always differ — and each of the four
+    asserts is reached by a graphics pipeline that sets the property twice (the arms are the current source's). -/
+theorem pipeline_located_compare_reaches_asserts :
+    (∀ ps : List PProp, (ps.map (·.2)).Nodup → firstDup locatedEq ps [] = none) ∧
+    runAs .located stateArms stageProps false [("VertexShader", 10), ("CullMode", 40), ("PixelShader", 50), ("CullMode", 60)] = some (.panic "CullMode") ∧
+    runAs .located stateArms stageProps false [("WindingOrder", 40), ("DefaultBindGroup", 50), ("WindingOrder", 60)] = some (.panic "WindingOrder") ∧
+    runAs .located stateArms stageProps false [("DepthTargetFormat", 40), ("DepthTargetFormat", 60)] = some (.panic "DepthTargetFormat") ∧
+    runAs .located stateArms stageProps false [("RenderTargetFormat3", 40), ("RenderTargetFormat0", 50), ("RenderTargetFormat3", 60)] =
+      some (.panic "RenderTargetFormat3") ∧
+    -- the same blocks under the text comparison: the later occurrence is reported
+    runAs pipelineDupCompare stateArms stageProps false [("CullMode", 40), ("CullMode", 60)] = some (.dup 60) ∧
+    runAs pipelineDupCompare stateArms stageProps false [("RenderTargetFormat3", 40), ("RenderTargetFormat0", 50), ("RenderTargetFormat3", 60)] = some (.dup 60) ∧
+    -- and on a compute pipeline the gated arm answers before anything is written
+    runAs pipelineDupCompare stateArms stageProps true [("DefaultBindGroup", 40), ("CullMode", 60)] = some (.other 60) := by
+  refine ⟨fun ps h => firstDup_located_none ps [] (fun _ _ _ hb => by cases hb) h, ?_, ?_, ?_, ?_, ?_, ?_, ?_⟩ <;> decide
+
+open RsslVerif.Lemmas.PanicClasses in
+/-- value of a fact a class reason may cite (`[fact: <name>]`); an unknown name counts as false -/
+def factHolds (name : String) : Bool :=
+  if name = "Gen.PipelineProps.pipelineShape.duplicatePropertyCheckComparesText" then
+    pipelineShape.duplicatePropertyCheckComparesText && pipelineShape.duplicateCheckIsThePairwiseLoop &&
+    pipelineShape.duplicateCheckPrecedesPropertyLoops && pipelineShape.stateLoopWalksRemainingProperties &&
+    pipelineShape.cullFlagWrittenByItsArmOnly && pipelineShape.windingFlagWrittenByItsArmOnly &&
+    pipelineShape.depthSlotWrittenByItsArmOnly && pipelineShape.renderTargetSlotIsTheNameDigit
+  else if name = "Gen.PipelineProps.pipelineShape.computeClosingAssertsFollowGatedWrites" then
+    pipelineShape.computeClosingAssertsFollowGatedWrites && pipelineShape.isComputeIsFirstStage &&
+    (stateArms.all fun a => !a.2.2 || a.2.1)
+  else false
+
+open RsslVerif.Lemmas.PanicClasses in
+/-- **A class reason that names a regenerated fact fails when the fact is false.**  (1) every reviewed site whose
+    reason is one of the citing reasons (`Lemmas.PanicClasses.citingReasons`: the reasons carrying a `[fact: ..]`
+    marker; the maintenance script tools/gens/_c08_review.py lists every reason with a marker) has its fact true in the
+    current `Gen` tables — stated as: every cited fact holds; (2) the six assert sites of `parse_pipeline` that are
+    unreachable only because of the duplicate check / the compute gate do carry such a reason. -/
+theorem panic_class_reasons_hold :
+    citingReasons.all (fun c => factHolds c.1) = true ∧
+    (["!cull_mode_set", "!winding_order_set", "gpo.depth_target_format.is_none()", "gpo.render_target_formats[index].is_none()"].all fun t =>
+      reviewed.any fun r => r.1 == ("typer/src/typer/pipelines.rs", "parse_pipeline", "assert!", t) && r.2.1 == "unreachable-by-invariant" &&
+        citingReasons.any fun c => c.1 == "Gen.PipelineProps.pipelineShape.duplicatePropertyCheckComparesText" && c.2 == r.2.2) = true ∧
+    (["gpo.depth_target_format.is_none() #2", "gpo.render_target_formats.is_empty()"].all fun t =>
+      reviewed.any fun r => r.1 == ("typer/src/typer/pipelines.rs", "parse_pipeline", "assert!", t) && r.2.1 == "unreachable-by-invariant" &&
+        citingReasons.any fun c => c.1 == "Gen.PipelineProps.pipelineShape.computeClosingAssertsFollowGatedWrites" && c.2 == r.2.2) = true := by
+  refine ⟨?_, ?_, ?_⟩ <;> decide +kernel
+
+-- non-vacuity: a block without a repeat is walked to the end, one with a repeat is reported at the later occurrence,
+-- an unknown name and a graphics property on a compute pipeline stop the walk with their diagnostic
+example : runAs pipelineDupCompare stateArms stageProps false [("CullMode", 1), ("RenderTargetFormat0", 2), ("BlendState", 3), ("RenderTargetFormat1", 4)] = some .done := by decide
+example : runAs pipelineDupCompare stateArms stageProps false [("BlendState", 1), ("CullMode", 2), ("BlendState", 3), ("CullMode", 4)] = some (.dup 3) := by decide
+example : runAs pipelineDupCompare stateArms stageProps false [("CullMode", 1), ("Foo", 2)] = some (.other 2) := by decide
+example : ¬ (names [("CullMode", 1), ("BlendState", 2), ("CullMode", 3)]).Nodup := by decide
+
+end PipelineProps
 
 /-! ## non-vacuity -/
 
